@@ -28,9 +28,12 @@
 EXTENDS Integers, Sequences, FiniteSets, FiniteSetsExt, TLC
 
 VARIABLES
-  pay,      \* [pid -> [node, hash, amt, chs, fixed, gen, term, fee, rep, dead, refd, owed, blame]]  (gen: how often the id was accepted)
+  pay,      \* [pid -> [node, hash, amt, chs, fixed, gen, term, fee, rep, dead, refd, intf, owed, blame, solo]]  (gen: how often the id was accepted)
             \*   chs: the first-hop channel of every part of the first attempt (the route the user / its router chose), when known
-            \*   (`fixed`); refd: the first-hop channels of the parts the payer refused at once (PaymentPathFailed, InitialSend)
+            \*   (`fixed`); refd: the first-hop channels of the parts the payer refused at once (PaymentPathFailed, InitialSend);
+            \*   intf: the first-hop channels of the parts the payer had accepted but failed itself before they were ever offered
+            \*   to the peer (a PaymentPathFailed that no update_fail_htlc on the path explains, while a part waits on that channel);
+            \*   solo: no other payment id of the run has used the payment hash
   ht,       \* [<<chan, adder, id>> -> [hash, pid, gen, st, amt]]   every HTLC offered anywhere; pid = 0: not a payer's own part
             \*   st: "flight" | "ful" | "fail" | "lost"; an HTLC stays in flight after its channel was closed for as long as
             \*   an output of its value sits unspent in the confirmed (or a not yet confirmed) commitment
@@ -58,13 +61,15 @@ Lost(pid) == \E k \in Own(pid) : ht[k].st = "lost"
 (*   refused         the payer could not hand it to the first-hop channel: PaymentPathFailed (InitialSend),     *)
 (*   held            neither: the HTLC sits in the channel but cannot leave yet -- the monitor write that      *)
 (*                   records it is still in flight (send_payment_along_path: MonitorUpdateInProgress), or it    *)
-(*                   waits in the holding cell.  It WILL be offered to the peer: it is a pending HTLC of the    *)
-(*                   payment although nothing of it is on the wire.                                             *)
+(*                   waits in the holding cell.  It is a pending HTLC of the payment although nothing of it is  *)
+(*                   on the wire: it will be offered to the peer, or the payer fails it itself when it turns    *)
+(*                   out to be unsendable once the channel can move again (`intf`, reported by a                *)
+(*                   PaymentPathFailed like any other failed part).                                             *)
 (* Counted per first-hop channel, so that a part a retry sends over another channel does not stand in for it.  *)
 Count(sq, c) == Cardinality({i \in 1..Len(sq) : sq[i] = c})
 SeqSet(sq) == {sq[i] : i \in 1..Len(sq)}
 OutOn(pid, c) == Cardinality({k \in Own(pid) : k[1] = c /\ k[2] = pay[pid].node})
-HeldOn(pid, c) == Count(pay[pid].chs, c) > OutOn(pid, c) + Count(pay[pid].refd, c)
+HeldOn(pid, c) == Count(pay[pid].chs, c) > OutOn(pid, c) + Count(pay[pid].refd, c) + Count(pay[pid].intf, c)
 Held(pid) == pay[pid].fixed /\ \E c \in SeqSet(pay[pid].chs) : HeldOn(pid, c)
 \* every part the payer meant to send exists as an HTLC or was refused at once
 AllPartsOut(pid) == ~Held(pid)
@@ -92,7 +97,7 @@ Put(f, k, v) == [x \in DOMAIN f \cup {k} |-> IF x = k THEN v ELSE f[x]]
 (* is refused.                                                                                               *)
 SSend(node, pid, hash, amt, chs, fixed, handled, res) ==
   LET rec == [node |-> node, hash |-> hash, amt |-> amt, chs |-> chs, fixed |-> fixed,
-              gen |-> IF pid \in Pids THEN pay[pid].gen + 1 ELSE 1, term |-> "none", fee |-> -1, rep |-> FALSE, dead |-> FALSE, refd |-> <<>>,
+              gen |-> IF pid \in Pids THEN pay[pid].gen + 1 ELSE 1, term |-> "none", fee |-> -1, rep |-> FALSE, dead |-> FALSE, refd |-> <<>>, intf |-> <<>>,
               \* the id was re-used after all its HTLCs failed but before the user handled the
               \* PaymentFailed of the earlier use (or a legal repetition of it): `owed` such
               \* events may still arrive
@@ -102,9 +107,10 @@ SSend(node, pid, hash, amt, chs, fixed, handled, res) ==
               \* the channel named by PaymentPathFailed is compared with the ground truth only while it is
               \* unambiguous: first use of the id, hash used by no other id, no restart (events of an earlier
               \* use, of another payment of the same hash, or repetitions cannot be told apart)
-              blame |-> pid \notin Pids /\ hash \notin DOMAIN pidOf]
+              blame |-> pid \notin Pids /\ hash \notin DOMAIN pidOf,
+              solo |-> hash \notin DOMAIN pidOf \/ (pidOf[hash] = pid /\ pid \in Pids /\ pay[pid].solo)]
       other == IF hash \in DOMAIN pidOf /\ pidOf[hash] # pid /\ pidOf[hash] \in Pids THEN {pidOf[hash]} ELSE {}
-      base == [p \in Pids |-> IF p \in other THEN [pay[p] EXCEPT !.blame = FALSE] ELSE pay[p]]
+      base == [p \in Pids |-> IF p \in other THEN [pay[p] EXCEPT !.blame = FALSE, !.solo = FALSE] ELSE pay[p]]
   IN
   /\ (res = "ok" /\ pid \in Pids) => (~InFlight(pid) /\ (handled => ~Held(pid)))
   /\ pidOf' = IF res = "ok" THEN Put(pidOf, hash, pid) ELSE pidOf
@@ -163,12 +169,16 @@ SEvSent(node, pid, hash, preimageOk, fee) ==
 
 (* ---- the payer's user handles Event::PaymentFailed.                                      *)
 (* FailedTruthful: no part was settled and none is still pending: in flight, or held back in *)
-(* the payer behind a monitor write that has not completed (AllPartsOut).                    *)
-SEvFailed(node, pid) ==
+(* the payer behind a monitor write that has not completed / in a holding cell (AllPartsOut),*)
+(* and the payer's own channels list no HTLC of the payment any more (pend: the number of    *)
+(* entries of that payment hash in ChannelDetails::pending_outbound_htlcs over the node's    *)
+(* list_channels when the event is handled; compared while no other id uses the hash).       *)
+SEvFailed(node, pid, pend) ==
   /\ pid \in Pids /\ pay[pid].node = node
   /\ \/ /\ pay[pid].owed > 0
         /\ pay' = [pay EXCEPT ![pid].owed = @ - 1]
      \/ /\ ~Settled(pid) /\ ~InFlight(pid) /\ AllPartsOut(pid)
+        /\ pay[pid].solo => pend = 0
         /\ pay[pid].term = "none" \/ (pay[pid].term = "failed" /\ pay[pid].rep)
         /\ pay' = [pay EXCEPT ![pid].term = "failed", ![pid].rep = FALSE]
   /\ UNCHANGED <<ht, pidOf, released, failSeen, snap, spent, feeKnown, initBal, gotAdd, stale, wip>>
@@ -190,7 +200,12 @@ SEvPathFailed(node, pid, hash, blamed, initial, path) ==
      ELSE blamed \in {path[k], path[k + 1]}
   \* (events are handled in the order they were queued: while a PaymentFailed of an earlier use of the id is still
   \* owed, this event stems from that use, not from the parts of the present one)
-  /\ pay' = IF initial /\ pay[pid].owed = 0 THEN [pay EXCEPT ![pid].refd = Append(@, IF Len(path) > 0 THEN path[1] ELSE 0)] ELSE pay
+  \* a failure that no update_fail_htlc on the path explains, on a first hop where a part of the payment still waits
+  \* inside the payer: the payer failed that part itself (it found it unsendable when it freed the holding cell)
+  /\ pay' = IF initial /\ pay[pid].owed = 0 THEN [pay EXCEPT ![pid].refd = Append(@, IF Len(path) > 0 THEN path[1] ELSE 0)]
+            ELSE IF ~initial /\ pay[pid].owed = 0 /\ K = {} /\ Len(path) > 0 /\ pay[pid].fixed /\ HeldOn(pid, path[1])
+            THEN [pay EXCEPT ![pid].intf = Append(@, path[1])]
+            ELSE pay
   /\ failSeen' = failSeen \ {<<hash, path[j]>> : j \in 1..Len(path)}
   /\ UNCHANGED <<ht, pidOf, released, snap, spent, feeKnown, initBal, gotAdd, stale, wip>>
 
@@ -259,15 +274,20 @@ SRecentAfterRestart(node, listed) ==
                             THEN [pay[p] EXCEPT !.dead = TRUE] ELSE pay[p]]
   /\ UNCHANGED <<ht, pidOf, released, failSeen, snap, spent, feeKnown, initBal, gotAdd, stale, wip>>
 
-(* ---- quiescence: every link is up and empty, every event has been handled.                *)
+(* ---- quiescence: every link is up and empty, every event has been handled, every monitor   *)
+(* write has been reported complete.                                                          *)
 (* SentComplete / FailedComplete: a payment none of whose HTLCs is pending has reported its   *)
-(* outcome, PaymentSent if any part was settled.  BalanceDelta: a pure payer whose channels   *)
-(* carry no HTLC has paid exactly amount + reported fee for every PaymentSent, nothing else.  *)
+(* outcome, PaymentSent if any part was settled.  Nothing waits inside the payer any more     *)
+(* (NothingHeld): a part the payer accepted has been offered to the peer or reported failed   *)
+(* -- a part that silently disappeared leaves a payment that is pending for good.             *)
+(* BalanceDelta: a pure payer whose channels carry no HTLC has paid exactly amount +          *)
+(* reported fee for every PaymentSent, nothing else.                                          *)
 TerminalOK(p) ==
-  (~InFlight(p) /\ AllPartsOut(p) /\ ~pay[p].dead) =>
+  (~InFlight(p) /\ ~pay[p].dead) =>
      IF Settled(p) THEN pay[p].term = "sent" ELSE IF Lost(p) THEN pay[p].term \in {"sent", "failed"} ELSE pay[p].term = "failed"
+NothingHeld(p) == ~pay[p].dead => ~Held(p)
 SQuietOK(balOf, idle) ==
-  /\ \A p \in Pids : TerminalOK(p)
+  /\ \A p \in Pids : TerminalOK(p) /\ NothingHeld(p)
   /\ \A n \in DOMAIN initBal :
        (n \in idle /\ n \notin gotAdd /\ feeKnown[n] /\ \A p \in Pids : pay[p].node = n => ~InFlight(p))
           => initBal[n] - balOf[n] = spent[n]
